@@ -15,6 +15,8 @@ pub struct HistProp {
     pub nontrivial: fn(&Trace) -> bool,
     pub quick_cases: u32,
     pub thorough_cases: u32,
+    /// directory-pressure histories (gen::pressure_case_strategy): (quick, thorough)
+    pub pressure_cases: (u32, u32),
     pub assumptions: Vec<&'static str>,
 }
 
@@ -89,7 +91,7 @@ pub fn known_block(hp: &HistProp, rep: &mut Report) -> Block {
         let Ok(case) = serde_json::from_value::<Case>(v["case"].clone()) else { continue };
         let mut cfg = hp.run_cfg.clone();
         cfg.known = Default::default();
-        let probe_hp = HistProp { id: hp.id, level: hp.level, rule: hp.rule, run_cfg: cfg, gen_cfg: hp.gen_cfg.clone(), nontrivial: hp.nontrivial, quick_cases: 0, thorough_cases: 0, assumptions: vec![] };
+        let probe_hp = HistProp { id: hp.id, level: hp.level, rule: hp.rule, run_cfg: cfg, gen_cfg: hp.gen_cfg.clone(), nontrivial: hp.nontrivial, quick_cases: 0, thorough_cases: 0, pressure_cases: (0, 0), assumptions: vec![] };
         let out = eval_case(&probe_hp, &case);
         b.record(&out, || serde_json::to_value(&case).unwrap());
         match (&out.violation, k.status.as_str()) {
@@ -107,6 +109,15 @@ pub fn known_block(hp: &HistProp, rep: &mut Report) -> Block {
     b
 }
 
+pub fn pressure_block(hp: &HistProp, seed: u64, tier: Tier) -> Option<Block> {
+    let cases = tier.pick(hp.pressure_cases.0, hp.pressure_cases.1);
+    if cases == 0 {
+        return None;
+    }
+    let gc = hp.gen_cfg.clone();
+    Some(run::run_random("dir_pressure_histories", seed ^ 0xD1F, cases, "history", move || run::boxed(gen::pressure_case_strategy(gc.clone())), |c: &Case| eval_case(hp, c)))
+}
+
 pub fn run(hp: &HistProp, tier: Tier, seed: u64) -> i32 {
     let mut rep = Report::new(hp.id, tier, seed, hp.level, hp.rule);
     for a in &hp.assumptions {
@@ -117,6 +128,11 @@ pub fn run(hp: &HistProp, tier: Tier, seed: u64) -> i32 {
     rep.add(regress_block(hp));
     if !rep.failed() {
         rep.add(random_block(hp, "random_histories", seed, tier.pick(hp.quick_cases, hp.thorough_cases)));
+    }
+    if !rep.failed() {
+        if let Some(b) = pressure_block(hp, seed, tier) {
+            rep.add(b);
+        }
     }
     rep.finish()
 }
